@@ -111,13 +111,14 @@ type State struct {
 	pc     *PC
 	defers [][]deferred // stack of frames
 	dead   bool
-	epoch  string // "" = entry heap; changed by havocAll
+	hav    []*havocRec // havocs whose keys were not all known at the time (newest last)
 	// bookkeeping for K3/K4 obligations evaluated by the protocol layer
 	trace []string
 }
 
 func (s *State) clone() *State {
-	n := &State{vars: make(map[types.Object]Value, len(s.vars)), heap: make(map[string]*Term, len(s.heap)), pc: s.pc, epoch: s.epoch, dead: s.dead}
+	n := &State{vars: make(map[types.Object]Value, len(s.vars)), heap: make(map[string]*Term, len(s.heap)), pc: s.pc, dead: s.dead}
+	n.hav = append([]*havocRec(nil), s.hav...)
 	for k, v := range s.vars {
 		n.vars[k] = v
 	}
@@ -401,6 +402,11 @@ func (c *FCtx) walkLeaves(t types.Type, v Value, path string, f func(path string
 	default:
 		tm, ok := v.(*Term)
 		if !ok {
+			if _, isF := v.(*FuncV); isF {
+				// a function literal stored in the heap: an opaque non-nil reference
+				f(path, t, App("closure$"+path, SInt))
+				return
+			}
 			panic(fmt.Sprintf("walkLeaves: scalar expected at %s (%s), got %T", path, t, v))
 		}
 		f(path, t, tm)
@@ -493,10 +499,29 @@ func (c *FCtx) heapGet(st *State, key string, s Sort) *Term {
 	if t, ok := st.heap[key]; ok {
 		return t
 	}
-	if st.epoch == "" || isGhostKey(key) {
-		return Var(key+"@pre", s)
+	if !isGhostKey(key) {
+		for i := len(st.hav) - 1; i >= 0; i-- {
+			if st.hav[i].covers(key) {
+				return Var(key+"@"+st.hav[i].name, s)
+			}
+		}
 	}
-	return Var(key+"@"+st.epoch, s)
+	return Var(key+"@pre", s)
+}
+
+// havocRec: a havoc of every key matching one of the prefixes ("*" = all non-ghost keys).
+type havocRec struct {
+	name     string
+	prefixes []string
+}
+
+func (h *havocRec) covers(key string) bool {
+	for _, p := range h.prefixes {
+		if p == "*" || key == p || strings.HasPrefix(key, p+".") {
+			return true
+		}
+	}
+	return false
 }
 
 func (c *FCtx) heapSet(st *State, key string, t *Term) {
@@ -564,6 +589,10 @@ func (c *FCtx) loadField(state *State, ref *Term, owner types.Type, f *types.Var
 		if lt != nil {
 			if fct := c.rangeFact(lt, x); !fct.IsTrue() {
 				facts = append(facts, fct)
+			}
+			if s == SInt && !isIntType(lt) {
+				// the heap is closed under allocation: stored references are allocated
+				facts = append(facts, ILt(x, c.heapGet(state, "$alloc", SInt)))
 			}
 		}
 		return x
